@@ -23,7 +23,10 @@ func checkC17(w *World, r *Report, tier string) propMeta {
 	c17R1(w, r)
 	c17R2(w, r)
 	c17R3(w, r)
-	c06R4(w, r) // entries are indexed only after the whole batch validated: a rejected batch leaves no entry behind
+	c03R4(w, r)           // entry sets never alias a pooled buffer
+	c03R6(w, r, "C17.R5") // nor do rows handed out by the allocating reader
+	c11R4(w, r)           // a copied block keeps the metadata its bytes were written with (struct copy, only location fields rewritten)
+	c06R4(w, r)           // entries are indexed only after the whole batch validated: a rejected batch leaves no entry behind
 	return propMeta{
 		explanation: "Self-description of written files as table agreement and value-identity rules: (R1) fileMetadataJSON mirrors FileMetadata field for field (minus the filters), WriteFileFooter copies each field from the metadata and records the length of the very section it wrote, ReadFileMetadata copies each field back, the filter-section flag bits map to the same filters in the same order in encoder and parser, and every compression the constructor accepts or the writer emits has a decoder case; (R2) in handleFlush and executeMergeGroup the assembly order is block row data → filterRegion.finish → WriteFileFooter → Close, nothing is written to the region or the file body after finish, and the metadata committed is the object the footer was written from; (R3) per block, the bytes written, RowDataSize, the offset increment and the CRC input are one value, RowDataOffset is the running offset before the increment, the region offset is the running offset after the last block, and Rows/UncompressedSize/BloomEntryCounts come from the same buffer or counters as the data.",
 		notDecided:  "Byte-level round trips and CRC values (the existing tests exercise these); the contents of third-party encoders.",
@@ -145,19 +148,7 @@ func c17R1(w *World, r *Report) {
 		}
 	}
 	// flag bits
-	enc, dec := flagTable(w, "encodeFilterSection", true), flagTable(w, "parseFilterSection", false)
-	if len(enc) == 0 || len(dec) == 0 {
-		r.undecided(rule, "flags", "-", fmt.Sprintf("flag tables not recovered (encoder %d, parser %d entries)", len(enc), len(dec)))
-	} else {
-		for bit, f := range enc {
-			r.check(dec[bit] == f, rule, fmt.Sprintf("flags:bit%d", bit), "-", "bit "+fmt.Sprint(bit)+" ↔ "+f+" in both", fmt.Sprintf("presence bit %d means %s to the encoder but %q to the parser: filters are decoded into the wrong slot", bit, f, dec[bit]))
-		}
-		for bit, f := range dec {
-			if _, ok := enc[bit]; !ok {
-				r.bad(rule, fmt.Sprintf("flags:bit%d", bit), "-", "the parser reads "+f+" for bit "+fmt.Sprint(bit)+" which the encoder never sets")
-			}
-		}
-	}
+	filterFlagTables(w, r, rule)
 	// compression cases
 	writerSet := compressionConsts(w, "BloomSearchEngine.createCompressionWriter")
 	readerSet := compressionConsts(w, "decodeBlockRowDataInto")
@@ -539,6 +530,9 @@ func checkC18(w *World, r *Report, tier string) propMeta {
 	c18R5(w, r)
 	r.rule("C18.R6", "UpdateMinMaxIndex, which ingest folds each row's value into the buffer's range with, returns (min,max) under every ordering of its inputs (shared with C04.R2)", 1)
 	updateMinMaxTable(w, r, "C18.R6")
+	c11R3(w, r) // merged blocks carry the running union of their members' ranges
+	c03R6(w, r, "C18.R7")
+	c03R4(w, r) // entry sets never alias a pooled buffer
 	return propMeta{
 		explanation: "Index coverage as typestate, per-iteration and value-identity rules: (R1) an entry set is never mutated (indexRow / unionInto as destination, directly or through a callee that mutates its parameter) after buildFilters/counts sealed it in the same function; (R2) every append of a block's metadata to a file's block list is preceded in its iteration by the merge of that block's entries into the file-level set (unionInto, or re-indexing every scanned row for copied blocks), and file-level filters are built only after the last block; (R3) a block's filters are built from the set that indexed that block's rows; (R4) indexRow records a field entry for every emission and a token and field:token entry for every token of every non-null leaf (fast and slow tokenizer paths), and buildSizedBloomFilter adds every entry; (R5) a buffer's PartitionID is the PartitionFunc value its rows were grouped under, and the minmax wiring feeds (min,max) of the row's own value into the buffer the row is written to.",
 		notDecided:  "That the walker enumerates every path/leaf of a document (value-level; differential testing), bloom hashing itself.",
@@ -1099,4 +1093,24 @@ func c18R5(w *World, r *Report) {
 		}
 	})
 	r.check(okStore, rule, "processIngestRequest:minmax-into-row's-buffer", w.pos(fn.Pos()), "range recorded under the configured key in the buffer the row goes to", "minmax ranges are recorded in a different buffer (or under a different key) than the row is written to")
+}
+
+// filterFlagTables: the filter section's presence bits mean the same filter to
+// the encoder and to the parser. Evaluated under C17 (files describe
+// themselves) and C01 (an absent filter must fail open for its own conditions,
+// which it only does if the present ones land in their own slots).
+func filterFlagTables(w *World, r *Report, rule string) {
+	enc, dec := flagTable(w, "encodeFilterSection", true), flagTable(w, "parseFilterSection", false)
+	if len(enc) == 0 || len(dec) == 0 {
+		r.undecided(rule, "flags", "-", fmt.Sprintf("flag tables not recovered (encoder %d, parser %d entries)", len(enc), len(dec)))
+	} else {
+		for bit, f := range enc {
+			r.check(dec[bit] == f, rule, fmt.Sprintf("flags:bit%d", bit), "-", "bit "+fmt.Sprint(bit)+" ↔ "+f+" in both", fmt.Sprintf("presence bit %d means %s to the encoder but %q to the parser: filters are decoded into the wrong slot", bit, f, dec[bit]))
+		}
+		for bit, f := range dec {
+			if _, ok := enc[bit]; !ok {
+				r.bad(rule, fmt.Sprintf("flags:bit%d", bit), "-", "the parser reads "+f+" for bit "+fmt.Sprint(bit)+" which the encoder never sets")
+			}
+		}
+	}
 }
